@@ -1,5 +1,6 @@
 import PqV.Impl.RowFilter
 import Mathlib.Tactic.Linarith
+import PqV.Gen.ColumnFilterShape
 /-!
 # C13 — row-level filtering returns exactly the rows that satisfy the predicate
 -/
@@ -151,5 +152,17 @@ theorem count_is_length {α} (l : List α) (sel : List Bool) (h : l.length = sel
 
 example : columnFilter (fun _ => false) (.flat [⟨0, ">", 1, []⟩, ⟨1, ">", 2, []⟩]) [[some 5, some 0], [some 5, some 9]]
     = [false, true] := by decide
+
+/-- the control skeleton of `ParquetFile._column_filter` as the source has it now (REGENERATED), which
+    `Impl.RowFilter.columnFilter` and `column_filter_dnf` assume: a flat list of conditions is one AND
+    group; the result starts all-false; every AND group gets its OWN all-true accumulator, conditions
+    are AND-ed into it and the group is OR-ed into the result; a condition on a partition column is
+    skipped with `continue` (the remaining conditions of the group still count), in both branches -/
+theorem column_filter_shape_now :
+    PqV.Gen.ColumnFilterShape.flatListIsOneAndGroup = true ∧ PqV.Gen.ColumnFilterShape.resultStartsAllFalse = true ∧
+    PqV.Gen.ColumnFilterShape.andAccumulatorPerGroup = true ∧
+    PqV.Gen.ColumnFilterShape.skipPartitionInSingle = "continue" ∧ PqV.Gen.ColumnFilterShape.skipPartitionInGroup = "continue" ∧
+    PqV.Gen.ColumnFilterShape.groupMerges = ["out|=and_part"] ∧ PqV.Gen.ColumnFilterShape.innerOps = ["BitAnd"] ∧
+    PqV.Gen.ColumnFilterShape.singleOps = ["BitOr"] := by decide
 
 end PqV.Props.C13
